@@ -93,7 +93,7 @@ fn main() {
             p @ ("C03" | "C04" | "C07" | "C16" | "C08" | "C20") => {
                 let kf = report::KnownFindings::load();
                 let mut run = report::Run::new(p, tier, "vecx");
-                vecx_run::add(&mut run, &kf, p, tier, if tier == "quick" { 45 } else { 1500 });
+                vecx_run::add(&mut run, &kf, p, tier, if tier == "quick" { 150 } else { 1500 });
                 if p == "C08" {
                     vecreads::bigscan(&mut run, &kf);
                 }
@@ -121,7 +121,7 @@ fn main() {
                 let kf = report::KnownFindings::load();
                 let mut run = report::Run::new("C17", tier, "codecx+vecx");
                 codecx::add(&mut run, &kf, tier);
-                vecx_run::add(&mut run, &kf, "C17", tier, if tier == "quick" { 20 } else { 600 });
+                vecx_run::add(&mut run, &kf, "C17", tier, if tier == "quick" { 90 } else { 600 });
                 run.cov("rule", serde_json::json!("boundary cross products of every field of every codec, all truncations and byte/length-field mutations of valid encodings, all slot-kind combinations of the regions file; each decode is one case, distinct by its input bytes"));
                 run.finish()
             }
@@ -143,7 +143,7 @@ fn main() {
                 let kf = report::KnownFindings::load();
                 let mut run = report::Run::new("C13", tier, "rawx+vecx");
                 rawx_run::add(&mut run, &kf, "C13", tier, if tier == "quick" { 15 } else { 600 });
-                vecx_run::add(&mut run, &kf, "C13", tier, if tier == "quick" { 30 } else { 900 });
+                vecx_run::add(&mut run, &kf, "C13", tier, if tier == "quick" { 120 } else { 900 });
                 run.cov("rule", serde_json::json!(rawx_run::RULE));
                 run.finish()
             }
